@@ -257,14 +257,21 @@ def wf_packets(ctx, rng):
             add(p_connack(rng.below(2), rng.below(6)), "random")
         else:
             add(p_unsuback(rng.below(65536), []), "random")
-    # corpus
+    for l in corpus_lines("ENC"):
+        add(" ".join(l.split()[4:]), "corpus")
+    return out
+
+
+def corpus_lines(kind):
+    """ops of one kind (ENC / DEC / STREAM, version 4) found in corpus/codec/*"""
     cdir = os.path.join(lib.ROOT, "corpus", "codec")
+    out = []
     if os.path.isdir(cdir):
         for fn in sorted(os.listdir(cdir)):
             for l in open(os.path.join(cdir, fn)).read().splitlines():
                 l = l.split(" #=")[0].strip()
-                if l.startswith("ENC 4 "):
-                    add(" ".join(l.split()[4:]), "corpus")
+                if l.startswith(kind + " 4 "):
+                    out.append(l)
     return out
 
 
@@ -500,6 +507,8 @@ def gen_dec_ops(ctx, frames, rng):
                     r2 = bytearray(raw); r2[k] = m
                     ops.append(r2.hex())
         ops.append(f + "c000")
+    for l in corpus_lines("DEC"):
+        ops.append(l.split()[4])
     mut_n = len(ops) - grammar_n
     # random strings
     nr = 200000 if ctx.thorough() else 15000
@@ -558,6 +567,9 @@ def gen_stream_ops(ctx, frames, rng):
         fl = "CB"[g % 2]
         mx = rng.choice([BIG, BIG, 10240, 128, 40])
         groups.append((fl, mx, raw))
+    for l in corpus_lines("STREAM"):
+        t = l.split()
+        groups.append((t[2], int(t[3]), "".join(c for c in t[4:] if c != "-")))
     lines, gidx = [], []
     for (fl, mx, raw) in groups:
         start = len(lines)
@@ -698,6 +710,11 @@ def run(ctx):
         "tokio_util::codec::Framed and rumqttd Network::read/readv are modelled by the loop `feed` (append chunk, decode until NeedMore/error); that the real loops behave like it is what the STREAM ops check",
         "MQTT 5 codecs are outside this component (v4 only); V4::write with Some(properties) (finding F2) is outside the canonical v4 packet type",
     ]
+    ctx.cov["scope"] = ("MQTT 3.1.1 (v4) codecs of both crates: every pinned theorem is proved for all 14 packet types and both flavours "
+                        "(nothing is correspondence-only). The MQTT 5 half of the property (rumqttc::v5::mqttbytes, rumqttd::protocol::v5) is NOT covered by this "
+                        "component yet: no model, no theorem, no correspondence run.")
+    ctx.cov["not_covered"] = ["MQTT 5 encoders/decoders (all four v5 entry points)", "encoders writing into a non-empty buffer",
+                              "max sizes above 2^28 and payloads above 2 MiB are sampled, not enumerated"]
     mexe, iexe = drivers(ctx)
     if not mexe:
         return
